@@ -103,6 +103,13 @@ fn run(op: &str, a: &[String]) -> String {
             let p = |i: usize| mk::<BFieldElement>(&g[i]);
             return showp(&p(0).clean_divide(p(1)));
         }
+        // alias_clean_divide b <i> <j> | <buffer> : clean_divide on two borrowed prefixes of one buffer
+        "alias_clean_divide" => {
+            let (i, j) = (g[0][0].parse::<usize>().unwrap(), g[0][1].parse::<usize>().unwrap());
+            let v: Vec<BFieldElement> = elems(&g[1][1..]);
+            let buf: &'static [BFieldElement] = Box::leak(v.into_boxed_slice());
+            return showp(&Polynomial::new_borrowed(&buf[..i]).clean_divide(Polynomial::new_borrowed(&buf[..j])));
+        }
         // XFieldElement::inverse (through Polynomial::xgcd against x^3 - x + 1)
         "xinv" => {
             let x: XFieldElement = Elem::parse(&nums(&g[0]));
@@ -119,7 +126,44 @@ fn run(op: &str, a: &[String]) -> String {
 }
 
 fn one<FF: Elem>(op: &str, g: &[Vec<String>]) -> Option<String> {
-    let p = |i: usize| mk::<FF>(&g[i]);
+    if op == "alias" {
+        // alias <field> <sub> <i> <j> | <buffer> : <sub> on two BORROWED polynomials that are the prefixes of length i and j
+        // of ONE buffer (same start address, different lengths)
+        let (i, j) = (g[0][1].parse::<usize>().unwrap(), g[0][2].parse::<usize>().unwrap());
+        let (_, k) = storage(&g[1][0]);
+        let mut v: Vec<FF> = elems(&g[1][1..]);
+        v.extend(vec![FF::ZERO; k]);
+        let buf: &'static [FF] = Box::leak(v.into_boxed_slice());
+        let og: Vec<Vec<String>> = vec![vec![], vec![]];
+        return one_core::<FF>(&g[0][0], &og, &|idx: usize| {
+            if idx == 0 {
+                Polynomial::new_borrowed(&buf[..i])
+            } else {
+                Polynomial::new_borrowed(&buf[..j])
+            }
+        });
+    }
+    if op == "same" {
+        // same <field> <sub> | <poly> : the very same object as dividend and divisor
+        let q = mk::<FF>(&g[1]);
+        return Some(match g[0][0].as_str() {
+            "divide" => {
+                let (a, b) = q.divide(&q);
+                format!("{} / {}", showp(&a), showp(&b))
+            }
+            "naive_divide" => {
+                let (a, b) = q.naive_divide(&q);
+                format!("{} / {}", showp(&a), showp(&b))
+            }
+            "reduce" => showp(&q.reduce(&q)),
+            "fast_reduce" => showp(&q.fast_reduce(&q)),
+            _ => return None,
+        });
+    }
+    one_core::<FF>(op, g, &|i: usize| mk::<FF>(&g[i]))
+}
+
+fn one_core<FF: Elem>(op: &str, g: &[Vec<String>], p: &dyn Fn(usize) -> P<FF>) -> Option<String> {
     let n = |i: usize| g[i][0].parse::<usize>().unwrap();
     Some(match op {
         "divide" => {
